@@ -146,7 +146,8 @@ def _canon(state, with_slots: bool = True):
         ip = sorted((x.worker_id if with_slots else 0, _evk(x.event), x.attempts, x.first_attempt_at, _exc(x.last_exception), x.last_failed_at,
                      sorted(x.recovery_counts.items())) for x in ws.in_progress)
         bufs = sorted((k, [_evk(e) for e in v]) for k, v in ws.collected_events.items())
-        wts = [(w.waiter_id, _evk(w.event), w.waiting_for_event.__name__, _evk(w.resolved_event), bool(w.has_requirements)) for w in ws.collected_waiters]
+        wts = [(w.waiter_id, _evk(w.event), w.waiting_for_event.__name__, _evk(w.resolved_event), bool(w.has_requirements), bool(w.timed_out))
+               for w in ws.collected_waiters]
         out.append((name, q, ip, bufs, wts))
     return out
 
@@ -161,7 +162,7 @@ def _invocations(state, step):
     return sorted(items, key=repr)
 
 
-@obligation(quick=200, thorough=600, partitions_quick=[f"nw == {n} and wk == {w}" for n in (1, 2, 3) for w in (0, 1, 2, 4)],
+@obligation(quick=200, thorough=600, partitions_quick=[f"nw == {n} and wk == {w}" for n in (1, 2, 3) for w in (0, 1, 2, 3, 4)],
             partitions_thorough=[f"nw == {n} and wk == {w} and att == {a}" for n in (1, 2, 3) for w in (0, 1, 2, 3, 4) for a in (0, 1, 2)],
             what="serialized form is stable after one round trip: D(S(D(S(s)))) == D(S(s)) (queues with retry info, buffers, waiters, running flag), "
                  "through model_dump -> JSON text -> from_dict_auto",
@@ -181,7 +182,7 @@ def ob_roundtrip_stable(nw: int, b0: bool, b1: bool, b2: bool, q: int, att: int,
     return _canon(d1) == _canon(d2)
 
 
-WKMAX = B(2, 3)   # plus kind 4 (pending with requirements) in both tiers
+WKMAX = 3   # none / pending / resolved / timed out; plus kind 4 (pending with requirements)
 
 
 @obligation(quick=200, thorough=600, partitions_quick=[f"nw == {n} and att == {a}" for n in (1, 2, 3) for a in (0, 1, 2)],
@@ -264,3 +265,127 @@ def _ctx_init_state(ctx, wf):
         if isinstance(v, SerializedContext):
             return BrokerState.from_serialized(v, wf, SER)
     return None
+
+
+# ----------------------------------------------------------------------------------------------- whole run
+
+
+import asyncio  # noqa: E402
+
+from workflows.events import Event  # noqa: E402
+from workflows.retry_policy import retry_policy, stop_after_attempt, wait_fixed  # noqa: E402
+from vlib.h_idle import install_speedups  # noqa: E402
+
+install_speedups()  # tooling only; every solver decision is taken before the scenario starts
+
+
+class PA(Event):
+    i: int
+
+
+class PB(Event):
+    i: int
+
+
+def _pause_wf(env, book, nfail):
+    class PW(Workflow):
+        @step
+        async def start(self, ctx: Context, ev: StartEvent) -> PA:
+            await ctx.store.set("started", True)
+            return PA(i=1)
+
+        @step
+        async def a(self, ctx: Context, ev: PA) -> PB:
+            await env.gate("a")
+            await ctx.store.set("a_saw", ev.i)          # idempotent writes: a re-executed invocation writes the same value
+            return PB(i=ev.i + 1)
+
+        @step(retry_policy=retry_policy(wait=wait_fixed(0), stop=stop_after_attempt(4)))
+        async def b(self, ctx: Context, ev: PB) -> StopEvent:
+            await env.gate("b")
+            if book["fails"] < nfail:
+                book["fails"] += 1
+                raise ValueError("transient")
+            await ctx.store.set("b_saw", ev.i)
+            return StopEvent(result=ev.i + 1)
+
+    return PW
+
+
+@obligation(quick=240, thorough=900, partitions_quick=[f"k == {k}" for k in range(1, 6)], partitions_thorough=[f"k == {k} and nfail == {f}" for k in range(1, 8) for f in (0, 1, 2)],
+            what="whole run (real run() loop, virtual-time loop): the run is paused at its k-th scheduling point (k symbolic: before / while step a runs, "
+                 "while step b runs its first or a retried attempt), ctx.to_dict() goes through JSON text, the original run is cancelled, and "
+                 "Workflow.run(ctx=Context.from_dict(...)) on a FRESH workflow object and runtime finishes with the same result and the same "
+                 "state-store contents as the uninterrupted run",
+            bounds={"snapshot point": "1..5 (quick) / 1..7 (thorough)", "failures of step b": "0..1 (quick) / 0..2", "steps": "start -> a -> b(retry policy)"})
+def ob_pause_resume_run(k: int, nfail: int) -> bool:
+    """
+    pre: 1 <= k <= KPAUSE and 0 <= nfail <= NFPAUSE
+    post: _
+    """
+    from vlib.sched import Env, SymAdapter, SymRuntime, run_loop
+
+    k, nfail = conc(k, 1, 7), conc(nfail, 0, 2)
+
+    def run_once(pause_at):
+        env = Env([])
+        book = {"fails": 0, "points": 0, "snap": None, "handler": None}
+        PW = _pause_wf(env, book, nfail)
+
+        class PauseAdapter(SymAdapter):
+            async def wait_for_next_task(self, running, pending, timeout=None):
+                book["points"] += 1
+                if pause_at is not None and book["points"] == pause_at and book["snap"] is None and book["handler"] is not None:
+                    book["snap"] = json.loads(json.dumps(book["handler"].ctx.to_dict()))
+                return await super().wait_for_next_task(running, pending, timeout)
+
+        class Rt(SymRuntime):
+            def get_internal_adapter(self, workflow):
+                return PauseAdapter(super().get_internal_adapter(workflow), self.env)
+
+        out = {}
+
+        async def main():
+            wf = PW(timeout=None, runtime=Rt(env))
+            h = wf.run(run_id="r")
+            book["handler"] = h
+            if pause_at is None:
+                out["result"] = await h
+                out["state"] = (await h.ctx.store.get_state()).model_dump() if hasattr(await h.ctx.store.get_state(), "model_dump") else None
+                return
+            # wait until the snapshot was taken (or the run finished first), then kill the first life
+            for _ in range(400):
+                await asyncio.sleep(0)
+                if book["snap"] is not None or h.done():
+                    break
+            if book["snap"] is None:
+                out["finished_first"] = True
+                out["result"] = await h
+                return
+            try:
+                await h.cancel_run()
+                await h
+            except Exception:  # noqa: BLE001 - WorkflowCancelledByUser
+                pass
+            # second life: fresh workflow object, fresh runtime, fresh environment
+            env2 = Env([])
+            book2 = {"fails": book["fails"]}
+            PW2 = _pause_wf(env2, book2, nfail)
+            wf2 = PW2(timeout=None, runtime=SymRuntime(env2))
+            h2 = wf2.run(ctx=Context.from_dict(wf2, book["snap"]), run_id="r2")
+            out["result"] = await h2
+            st = await h2.ctx.store.get_state()
+            out["state"] = st.model_dump() if hasattr(st, "model_dump") else None
+
+        run_loop(main)
+        return out
+
+    ref = run_once(None)
+    got = run_once(k)
+    if got.get("finished_first"):
+        return got["result"] == ref["result"]
+    return got.get("result") == ref["result"] and got.get("state") == ref["state"]
+
+
+KPAUSE = B(5, 7)
+NFPAUSE = B(1, 2)
